@@ -171,8 +171,7 @@ def check_doc(text, exp, fspecs, acc):
         acc.transition(s1, ("write", spec), acc.state(("text", w1)))
         acc.outcome(w1)
         if l1.failed_blocks:
-            acc.count("first_parse_has_failed_blocks")  # C02's subject
-            continue
+            acc.count("first_parse_has_failed_blocks")  # (also C02's subject; the round trip is judged all the same)
         if before != after or canon(fmt) != fcanon:
             acc.violation(
                 {"oracle": "writing_leaves_library_and_format", "what": "library" if before != after else "format"},
